@@ -324,27 +324,39 @@ Section Exec.
       end
     end.
 
-  (* static chain over the base array; stops at the first failing fallible static injector *)
-  Fixpoint exec_static (prog : list cp) (w : W) (a : list val) : xres :=
+  (* static chain over the base array: literals and static injectors in listed order; after a
+     failing fallible static injector the remaining injectors are skipped, literals still apply *)
+  Definition lit_value (c : cp) : val :=
+    match cp_out c with (_, t) :: _ => VTag t (cp_pid c) 0 | [] => VInvalid end.
+  Definition apply_literal (c : cp) (a : list val) : list val :=
+    match cp_out c with (Some i, _) :: _ => aput i (lit_value c) a | _ => a end.
+
+  Fixpoint exec_static (prog : list cp) (failed : bool) (w : W) (a : list val) : xres :=
     match prog with
     | [] => (w, a, true)
     | c :: rest =>
-      let args := read_params (cp_in c) a in
-      if has_invalid args then (w, a, false) else
-      let (w1, outs) := beh_fn (cp_pid c) w args in
-      let a1 := write_params (cp_out c) outs a in
       match cp_class c with
-      | ClFallibleStatic =>
-        if negb (is_nil (nth (cp_tepos c) outs VInvalid)) then (w1, zero_arr (cp_zero c) a1, true)
-        else exec_static rest w1 a1
-      | _ => exec_static rest w1 a1
+      | ClLiteral => exec_static rest failed w (apply_literal c a)
+      | _ =>
+        if failed then exec_static rest true w a else
+        let args := read_params (cp_in c) a in
+        if has_invalid args then (w, a, false) else
+        let (w1, outs) := beh_fn (cp_pid c) w args in
+        let a1 := write_params (cp_out c) outs a in
+        match cp_class c with
+        | ClFallibleStatic =>
+          if negb (is_nil (nth (cp_tepos c) outs VInvalid))
+          then exec_static rest true w1 (write_params (cp_out c) outs (zero_arr (cp_zero c) a1))
+          else exec_static rest false w1 a1
+        | _ => exec_static rest false w1 a1
+        end
       end
     end.
 
   (* a bound chain *)
   Record bound := mkBound {
     bd_base0 : list val;          (* baseValues with the literals filled in *)
-    bd_static : list cp;
+    bd_static : list cp;         (* literals and static injectors, in listed order *)
     bd_run : list cp;
     bd_init : option cp;
     bd_invoke : cp
@@ -367,7 +379,7 @@ Section Exec.
         let (w0, args) := beh_fn (cp_pid ic) (ss_w s) [] in
         let '(w1, base1, ok) :=
           if ss_done s then (w0, ss_base s, true)
-          else exec_static (bd_static b) w0 (write_params (cp_out ic) args (ss_base s)) in
+          else exec_static (bd_static b) false w0 (write_params (cp_out ic) args (ss_base s)) in
         (mkSess w1 base1 true ok, if ok then RInit (read_params (cp_in ic) base1) else RPanic)
       end
     | DoInvoke =>
@@ -377,7 +389,7 @@ Section Exec.
         | Some _ => (w0, ss_base s, true, ss_done s)
         | None =>
           if ss_done s then (w0, ss_base s, true, true)
-          else match exec_static (bd_static b) w0 (ss_base s) with
+          else match exec_static (bd_static b) false w0 (ss_base s) with
                | (w1, a1, ok) => (w1, a1, ok, true)
                end
         end in
